@@ -72,6 +72,7 @@ pub const FAULT_KINDS: &[&str] = &[
     "splice_from_other_file",
     "swap_files",
     "invalid_utf8",
+    "insert_multibyte",
 ];
 
 /// Applies one disk fault to `tree`; returns (kind, path) of what fired, if anything could fire.
@@ -180,6 +181,19 @@ pub fn apply_fault(t: &mut Tape, tree: &mut Tree, kinds: &[&'static str], prefer
             };
             let f = tree.files.get_mut(&path).unwrap();
             f.splice(at..at, bad.iter().copied());
+        }
+        "insert_multibyte" => {
+            // a (valid) multi-byte character lands in the stored text, e.g. from a misdirected write
+            let f = tree.files.get_mut(&path).unwrap();
+            let ch = *t.pick(&["é", "ß", "€", "日", "😀", "\u{300}"]);
+            // at a character boundary if the file is text, else anywhere
+            let mut at = t.index(len + 1);
+            if let Ok(text) = std::str::from_utf8(f) {
+                while at > 0 && !text.is_char_boundary(at) {
+                    at -= 1;
+                }
+            }
+            f.splice(at..at, ch.bytes());
         }
         _ => return None,
     }
